@@ -40,6 +40,23 @@ def example_inputs():
     return out
 
 
+def defined_later_input(rng):
+    """SELECTED_OUTPUT names a phase / species that only a LATER simulation defines (PHASES / SOLUTION_SPECIES), then more rows are written"""
+    ph = rng.choice(["MyFluorite", "Zzite", "Halite2"])
+    sp, rxn = rng.choice([("CaF2", "Ca+2 + 2F- = CaF2"), ("KF", "K+ + F- = KF")])
+    t = "SOLUTION 1\n pH 7\n Ca %g\n F %g\n Na 1\n K 1\n Cl 1\nSELECTED_OUTPUT %d\n -reset false\n -high_precision true\n -pH true\n -saturation_indices %s Fluorite\n -equilibrium_phases %s\n -molalities F- %s\n -activities %s\nEND\n" % (
+        rng.uniform(0.1, 2), rng.uniform(0.01, 0.5), rng.choice([1, 3]), ph, ph, sp, sp)
+    defs = "PHASES\n %s\n CaF2 = Ca+2 + 2F-\n log_k %g\n" % (ph, rng.uniform(-11, -9))
+    defs += "SOLUTION_SPECIES\n %s\n log_k %g\n" % (rxn, rng.uniform(0.3, 1.5))
+    if rng.random() < 0.5:
+        t += defs + "END\n"
+        t += "USE solution 1\nREACTION 1\n CaCl2 1\n 0.0005 0.001\nEND\n"
+    else:
+        t += defs + "USE solution 1\nREACTION 1\n NaF 1\n 0.0002 0.0004\nEND\n"
+    t += "USE solution 1\nEQUILIBRIUM_PHASES 1\n %s 0 0\nEND\n" % ph
+    return t
+
+
 def script(db, pieces, cwd):
     """pieces: list of (entry, text)"""
     ops = [["spy"], ["c", "LoadDatabase", 0, os.path.join(vlib.DB, db)], ["c", "SetDumpStringOn", 0, 1]]
@@ -162,6 +179,9 @@ def run(ctx):
                 t = ctx.rng.choice([p for p in c07.PERTURB if "USER_GRAPH" not in p and "SIM" not in p]) + t + "USE solution 1\nREACTION 1\n NaCl 1\n 0.001 0.002 0.004\nEND\n"
             inputs.append(("gen%d" % k, "phreeqc.dat", t))
         fixed = None
+    if not ctx.replay:
+        for k in range(ctx.n(8, 60)):
+            inputs.append(("late%d" % k, "phreeqc.dat", defined_later_input(ctx.rng)))
     jobs = []
     for name, db, text in inputs:
         sims = split_sims(text)
